@@ -212,6 +212,9 @@ def run(pid, tier, seed, profile, oracle, n_quick, n_thorough, variants=None, ca
                 extra_cfg = [dict(op="configuration", key="configuration-changed-by-the-run",
                                   what="the run left the library configuration changed: (bitlength, resolution) = %r, configured %r (exception: %s)" % (r["config"], [c["cfg"]["n"], c["cfg"]["res"]], r["exn"]))]
             else: extra_cfg = []
+            if r.get("format_effects"):
+                extra_cfg.append(dict(op="formatting", key="formatting-a-value-has-effects",
+                                      what="repr() / str() of a value allocated variables or emitted constraints (statements %r)" % (r["format_effects"],)))
             for v in list(oracle(c, r, grp)) + (extra if mutation_oracle else []) + extra_cfg:
                 v.setdefault("kind", "oracle")
                 v.setdefault("case", dict(cfg=c["cfg"], prog=c["prog"], ins=c["ins"]))
